@@ -29,6 +29,7 @@ type c07Delivery struct {
 	Other int        `json:"other,omitempty"`
 	Muts  []wire.Mut `json:"muts,omitempty"`
 	Dst   dstSpec    `json:"dst"`
+	Cold  bool       `json:"cold,omitempty"` // the opener makes this call on an OS thread that never ran library code (seam S7)
 }
 
 type c07Script struct {
@@ -37,6 +38,7 @@ type c07Script struct {
 	Prior      []aeadSpec    `json:"prior,omitempty"` // AEADs built earlier on the same Block (key field ignored)
 	Msgs       []c07Msg      `json:"msgs"`
 	Deliveries []c07Delivery `json:"deliveries"`
+	ColdSeal   bool          `json:"cold_seal,omitempty"` // the sealer works on a fresh OS thread per call
 	Giant      string        `json:"giant,omitempty"` // one message of 2^32 bytes or more (see giant.go); everything else is ignored
 }
 
@@ -71,7 +73,7 @@ func (c07) Meta() core.Meta {
 			"oracle": "the wire's own record (byte identity with a sealed triple); keystream for the would-be plaintext from the library's own Seal of zeros"},
 		Assumptions: []string{"a delivered triple that differs from every sealed one is not authentic (a chance forgery has probability <= 2^-96)", "nonce corruption keeps the nonce length (a wrong-length nonce panics by crypto/cipher convention and is API misuse)",
 			"leak check of rejected plaintext in caller-visible memory only for bodies >= 16 bytes (chance match <= 2^-128)"},
-		FaultKinds: []string{"wire:flip:body", "wire:flip:tag", "wire:flip:nonce", "wire:flip:aad", "wire:trunc<tag", "wire:trunc>=tag", "wire:extend", "wire:tailsplice", "wire:splice:nonce", "wire:splice:aad", "wire:splice:ct", "wire:insert", "wire:drop", "replay", "untouched", "history:other-aeads-on-same-block"},
+		FaultKinds: []string{"wire:flip:body", "wire:flip:tag", "wire:flip:nonce", "wire:flip:aad", "wire:trunc<tag", "wire:trunc>=tag", "wire:extend", "wire:tailsplice", "wire:splice:nonce", "wire:splice:aad", "wire:splice:ct", "wire:insert", "wire:drop", "replay", "untouched", "history:other-aeads-on-same-block", "thread:cold-open", "thread:cold-seal"},
 		ProbeNames: []string{"authentic-opened", "forgery-rejected", "reassembled-original", "shorter-than-tag", "empty-plaintext", "dst-leak-checked", "nonce!=12", "tag<16"},
 		StepUnit:   "deliveries + seal/open calls",
 	}
@@ -200,8 +202,10 @@ func (c07) Generate(idx int, r *core.Rand, tier string) core.Script {
 			}
 		}
 		d.Dst = genDst(w, m.PtLen, true)
+		d.Cold = f.Chance(1, 8)
 		s.Deliveries = append(s.Deliveries, d)
 	}
+	s.ColdSeal = f.Chance(1, 10)
 	return s
 }
 
@@ -263,6 +267,7 @@ func (c07) Execute(sc core.Script, keep bool) *core.Result {
 			log.Add("VIOLATION %s %s %s %s: %s", class, op, role, param, detail)
 		}
 	}
+	gcmCanon()
 	var a, sealer cipher.AEAD // opener's and sealer's AEAD: two nodes, each with its own objects built from the shared key
 	var spec aeadSpec
 	var sealed []c07Sealed
@@ -279,10 +284,13 @@ func (c07) Execute(sc core.Script, keep bool) *core.Result {
 		if len(s.Prior) > 0 {
 			res.Faults["history:other-aeads-on-same-block"]++
 		}
+		if s.ColdSeal {
+			res.Faults["thread:cold-seal"]++
+		}
 		// sealer node: fault-free
 		for i, m := range s.Msgs {
 			sm := c07Sealed{nonce: seededBytes(m.NonceSeed, spec.NonceSize, false), pt: seededBytes(m.PtSeed, m.PtLen, false), aad: seededBytes(m.AadSeed, m.AadLen, false)}
-			sm.ct = sealer.Seal(nil, cloneSlack(sm.nonce), cloneSlack(sm.pt), cloneSlack(sm.aad))
+			core.On(s.ColdSeal, func() { sm.ct = sealer.Seal(nil, cloneSlack(sm.nonce), cloneSlack(sm.pt), cloneSlack(sm.aad)) })
 			log.Add("sealed msg%d pt=%d aad=%d ct=%s", i, m.PtLen, m.AadLen, core.Hex8(sm.ct))
 			sealed = append(sealed, sm)
 		}
@@ -401,11 +409,14 @@ func (c07) Execute(sc core.Script, keep bool) *core.Result {
 				var d0, in0 []byte
 				scratch, d0, in0 = inplaceBuf(d.Dst, c2)
 				prefix = append([]byte{}, d0...)
-				outPt, err = a.Open(d0, n2, in0, a2)
+				core.On(d.Cold, func() { outPt, err = a.Open(d0, n2, in0, a2) })
 			} else {
 				dst = mkDst(d.Dst)
 				prefix = append([]byte{}, dst...)
-				outPt, err = a.Open(dst, n2, c2, a2)
+				core.On(d.Cold, func() { outPt, err = a.Open(dst, n2, c2, a2) })
+			}
+			if d.Cold {
+				res.Faults["thread:cold-open"]++
 			}
 		})
 		log.Add("delivery%d msg%d %s ct=%d dst=%s expect=%s -> panic=%v err=%v out=%s", di, d.Msg, kind, len(ct), dc, verdict, p, err != nil, core.Hex8(outPt))
